@@ -73,6 +73,9 @@ func (s *c01Source) MeasureClockOffset(ctx context.Context) (time.Time, time.Dur
 	if call < len(s.plans) {
 		p = s.plans[call]
 	}
+	if p.beh != c01Answer {
+		s.r.Fault([]string{"", "source-fails", "source-answers-after-deadline", "source-blocks-until-cancelled", "source-ignores-cancellation"}[p.beh])
+	}
 	op := &simcore.Op{ID: fmt.Sprintf("src:%s:%d", s.name, call), NoDelay: true}
 	switch p.beh {
 	case c01UntilCancel:
